@@ -61,7 +61,7 @@ Proof.
     rewrite F. cbn [skipn]. rewrite Fsb, Hp. cbn [bind]. now rewrite PK.
   - rewrite app_nil_r.
     assert (L : length (p :: sb) = 33%nat) by (cbn [length]; now rewrite Lsb).
-    rewrite L. change (33 =? 34)%nat with false. cbn iota. cbn [bind skipn].
+    rewrite L. change (33 =? 34)%nat with false. change (33 =? 33)%nat with true. cbn iota. cbn [bind skipn].
     rewrite Fsb, Hp. cbn [bind]. now rewrite PK.
 Qed.
 
@@ -106,10 +106,9 @@ Qed.
 
 Ltac a2s_case LT DEC HLh :=
   cbn [app hrp_bc hrp_tb hrp_bcrt] in DEC;
-  cbn -[decode_bech32 decode_base58 Nat.eqb length];
-  cbn [length]; rewrite ?LT;
-  cbn -[decode_bech32 decode_base58]; rewrite ?DEC;
-  cbn -[decode_bech32 decode_base58 length Nat.eqb]; rewrite ?HLh; reflexivity.
+  cbn -[decode_bech32 raw_decode_base58 Nat.eqb length];
+  rewrite ?DEC;
+  cbn -[decode_bech32 raw_decode_base58 length Nat.eqb]; rewrite ?HLh; reflexivity.
 
 (* P2WPKH / P2WSH / P2TR: script -> address -> script, on the four networks *)
 Theorem segwit_address_roundtrip t h net :
@@ -139,11 +138,11 @@ Proof.
     change (b32c (seg_version 2)) with 113 in *. change (seg_version 2) with 0 in *.
     change (seg_script 2 h) with (p2wpkh_script h).
     destruct HK as [-> | [-> | ->]]; split.
-    + unfold address_to_script_pubkey, len_in. a2s_case LT DEC HLh.
+    + unfold address_to_script_pubkey. a2s_case LT DEC HLh.
     + unfold to_address_spk. a2s_case LT DEC HLh.
-    + unfold address_to_script_pubkey, len_in. a2s_case LT DEC HLh.
+    + unfold address_to_script_pubkey. a2s_case LT DEC HLh.
     + unfold to_address_spk. a2s_case LT DEC HLh.
-    + unfold address_to_script_pubkey, len_in. a2s_case LT DEC HLh.
+    + unfold address_to_script_pubkey. a2s_case LT DEC HLh.
     + unfold to_address_spk. a2s_case LT DEC HLh.
   - (* P2WSH *)
     rename H32 into HLh.
@@ -151,11 +150,11 @@ Proof.
     change (b32c (seg_version 3)) with 113 in *. change (seg_version 3) with 0 in *.
     change (seg_script 3 h) with (p2wsh_script h).
     destruct HK as [-> | [-> | ->]]; split.
-    + unfold address_to_script_pubkey, len_in. a2s_case LT DEC HLh.
+    + unfold address_to_script_pubkey. a2s_case LT DEC HLh.
     + unfold to_address_spk. a2s_case LT DEC HLh.
-    + unfold address_to_script_pubkey, len_in. a2s_case LT DEC HLh.
+    + unfold address_to_script_pubkey. a2s_case LT DEC HLh.
     + unfold to_address_spk. a2s_case LT DEC HLh.
-    + unfold address_to_script_pubkey, len_in. a2s_case LT DEC HLh.
+    + unfold address_to_script_pubkey. a2s_case LT DEC HLh.
     + unfold to_address_spk. a2s_case LT DEC HLh.
   - (* P2TR *)
     rename H32 into HLh.
@@ -163,11 +162,11 @@ Proof.
     change (b32c (seg_version 4)) with 112 in *. change (seg_version 4) with 1 in *.
     change (seg_script 4 h) with (p2tr_script h).
     destruct HK as [-> | [-> | ->]]; split.
-    + unfold address_to_script_pubkey, len_in. a2s_case LT DEC HLh.
+    + unfold address_to_script_pubkey. a2s_case LT DEC HLh.
     + unfold to_address_spk. a2s_case LT DEC HLh.
-    + unfold address_to_script_pubkey, len_in. a2s_case LT DEC HLh.
+    + unfold address_to_script_pubkey. a2s_case LT DEC HLh.
     + unfold to_address_spk. a2s_case LT DEC HLh.
-    + unfold address_to_script_pubkey, len_in. a2s_case LT DEC HLh.
+    + unfold address_to_script_pubkey. a2s_case LT DEC HLh.
     + unfold to_address_spk. a2s_case LT DEC HLh.
 Qed.
 
@@ -266,9 +265,16 @@ Qed.
 Definition b58_script (t : Z) (h : bytes) : list cmd :=
   if t =? 0 then p2pkh_script h else p2sh_script h.
 
-Ltac b58_case DEC HLh :=
-  cbn -[decode_base58 decode_bech32 length Nat.eqb]; rewrite ?DEC;
-  cbn -[decode_base58 decode_bech32 length Nat.eqb]; rewrite ?HLh; reflexivity.
+Lemma enc_raw_decode raw a : bytes_ok raw ->
+  encode_base58_checksum hash256 raw = Ok a -> raw_decode_base58 hash256 a = Ok raw.
+Proof.
+  intros HB E. destruct (base58check_roundtrip hash256 hash_len hash_ok raw HB) as [s [E1 [_ E2]]].
+  rewrite E in E1. injection E1 as <-. exact E2.
+Qed.
+
+Ltac b58_case RAW HLh :=
+  cbn -[raw_decode_base58 decode_bech32 length Nat.eqb b58_raw_bad]; rewrite ?RAW;
+  cbn [bind]; unfold b58_raw_bad; cbn [length nth skipn]; rewrite ?HLh; reflexivity.
 
 (* P2PKH (t = 0) and P2SH (t = 1), 20-byte hash: script -> address -> script through both
    address_to_script_pubkey and TxOut.to_address, on every network (mainnet versions
@@ -280,8 +286,11 @@ Theorem base58_address_roundtrip t h net :
             to_address_spk hash256 a = Ok (b58_script t h).
 Proof.
   intros Ht HB HL.
-  destruct (base58_address_payload t h net Ht HB) as [a [EA [_ DEC]]].
+  destruct (base58_address_payload t h net Ht HB) as [a [EA [_ _]]].
   exists a. split; [exact EA|].
+  assert (RAWOF : forall v, 0 <= v < 256 -> encode_base58_checksum hash256 (v :: h) = Ok a ->
+                            raw_decode_base58 hash256 a = Ok (v :: h)).
+  { intros v Hv E. apply enc_raw_decode; [constructor; [exact Hv|exact HB]|exact E]. }
   assert (K33 : 58 ^ Z.of_nat 33 = 58 ^ 33) by reflexivity.
   assert (K34 : 58 ^ Z.of_nat 34 = 58 ^ 34) by reflexivity.
   assert (K35 : 58 ^ Z.of_nat 35 = 58 ^ 35) by reflexivity.
@@ -291,9 +300,11 @@ Proof.
     [change (0 =? 0) with true | change (1 =? 0) with false]; cbv iota;
     destruct (net =? 0).
   - (* P2PKH mainnet: '1' *)
+    pose proof (RAWOF 0 ltac:(lia) EA) as DEC.
     destruct (b58_zero_first h a EA HB) as [rest ->].
     split; [unfold address_to_script_pubkey | unfold to_address_spk]; b58_case DEC HL.
   - (* P2PKH other: 'm' / 'n' *)
+    pose proof (RAWOF 111 ltac:(lia) EA) as DEC.
     destruct (b58_first_char 111 h a ltac:(lia) HB HL EA) as [dg [r [-> [Hd HK]]]].
     destruct (HK 33%nat) as [B1 B2]; [rewrite K33; unfold P24; lia|rewrite K34; unfold P24; lia|].
     rewrite K33 in B1, B2. unfold P24 in B1, B2.
@@ -303,12 +314,14 @@ Proof.
     + change (b58_char 45) with 110 in *.
       split; [unfold address_to_script_pubkey | unfold to_address_spk]; b58_case DEC HL.
   - (* P2SH mainnet: '3' *)
+    pose proof (RAWOF 5 ltac:(lia) EA) as DEC.
     destruct (b58_first_char 5 h a ltac:(lia) HB HL EA) as [dg [r [-> [Hd HK]]]].
     destruct (HK 33%nat) as [B1 B2]; [rewrite K33; unfold P24; lia|rewrite K34; unfold P24; lia|].
     rewrite K33 in B1, B2. unfold P24 in B1, B2.
     assert (dg = 2) as -> by lia. change (b58_char 2) with 51 in *.
     split; [unfold address_to_script_pubkey | unfold to_address_spk]; b58_case DEC HL.
   - (* P2SH other: '2' *)
+    pose proof (RAWOF 196 ltac:(lia) EA) as DEC.
     destruct (b58_first_char 196 h a ltac:(lia) HB HL EA) as [dg [r [-> [Hd HK]]]].
     destruct (HK 34%nat) as [B1 B2]; [rewrite K34; unfold P24; lia|rewrite K35; unfold P24; lia|].
     rewrite K34 in B1, B2. unfold P24 in B1, B2.
